@@ -166,7 +166,8 @@ RECURSIVE InferOpt(_, _, _)
 InferOpt(t, ign, ts) ==
   CASE t.k = "bad" -> IF ign THEN IDrop ELSE IErr
     [] t.k = "rec" -> IErr
-    [] t.k = "named" -> InferOpt(t.e, ign, ts)
+    \* an entry for a defined (named) type replaces whatever its underlying type would give - an unsupported kind included
+    [] t.k = "named" -> IF ("named:" \o t.name) \in DOMAIN ts THEN IOk(ts["named:" \o t.name]) ELSE InferOpt(t.e, ign, ts)
     [] t.k = "ptr" -> LET r == InferOpt(t.e, ign, ts) IN IF IsOk(r) THEN IOk(AddNull(r.s)) ELSE r
     [] t.k = "slice" -> LET r == InferOpt(t.e, ign, ts)
                         IN IF IsOk(r) THEN IOk([types |-> <<"null", "array">>, items |-> r.s]) ELSE r
